@@ -39,6 +39,8 @@ type Run struct {
 	// per-run engine options
 	Debug  bool   `json:"debug"`
 	Writer string `json:"writer"`
+	// Verbose: (with Debug) the process-wide debug level is the most talkative one
+	Verbose bool `json:"verbose"`
 	// per-run context (overrides the case's)
 	Ctx json.RawMessage `json:"ctx"`
 	// Repeat > 1: render that many times (fresh engine each) and require identical results
@@ -516,6 +518,9 @@ func renderRun(c *Case, r *Run, ctx map[string]interface{}) (o obs) {
 		defer twig.SetDebugLevel(twig.DebugOff) // the debug level is process-wide
 		e.SetDebug(true)
 		twig.SetDebugWriter(io.Discard)
+		if r.Verbose {
+			twig.SetDebugLevel(twig.DebugVerbose)
+		}
 	}
 	entry := r.Entry
 	if entry == "" {
